@@ -385,7 +385,7 @@ def classify(cls, case, exp, got, bases=()):
 
 def main(ck):
     tree = cy.Tree('C30')
-    ncls = ck.pick(80, 600)
+    ncls = ck.pick(80, 360)
     per_mod = ck.pick(10, 30)
     nops = ck.pick(30, 40)
     classes = []
